@@ -15,6 +15,7 @@ import (
 	"cffverif/internal/load"
 	"cffverif/internal/report"
 	"cffverif/internal/gen"
+	"cffverif/internal/genlint"
 	"cffverif/internal/sched"
 	"cffverif/internal/variants"
 )
@@ -37,6 +38,7 @@ func allRules() []report.Rule {
 	var out []report.Rule
 	out = append(out, sched.Rules...)
 	out = append(out, gen.Rules...)
+	out = append(out, genlint.Rules...)
 	return out
 }
 
@@ -80,6 +82,7 @@ func main() {
 type engineSet struct {
 	sched bool
 	gen   bool
+	lint  bool
 }
 
 func parseEngines(s string) engineSet {
@@ -90,9 +93,12 @@ func parseEngines(s string) engineSet {
 			es.sched = true
 		case "gen":
 			es.gen = true
+		case "lint":
+			es.lint = true
 		case "all":
 			es.sched = true
 			es.gen = true
+			es.lint = true
 		}
 	}
 	return es
@@ -107,6 +113,8 @@ func (es engineSet) has(id string) bool {
 		return es.sched && id == "L5"
 	case 'V':
 		return es.gen
+	case 'G':
+		return es.lint
 	}
 	return false
 }
@@ -125,6 +133,11 @@ func runEngines(es engineSet, tier string, sink *report.Sink) (errs []string) {
 	if es.sched {
 		if err := sched.Run(repo, sink); err != nil {
 			errs = append(errs, "sched: "+err.Error())
+		}
+	}
+	if es.lint {
+		if err := genlint.Run(repo, sink); err != nil {
+			errs = append(errs, "genlint: "+err.Error())
 		}
 	}
 	if es.gen {
@@ -201,6 +214,8 @@ func cmdCheck(args []string) int {
 			es.sched = true
 		case 'V':
 			es.gen = true
+		case 'G':
+			es.lint = true
 		}
 	}
 	sink := report.NewSink()
